@@ -3,6 +3,7 @@ from vlib.core import Job
 def D(fn, entry, **kw):
     kw.setdefault("unwind", 10)
     kw.setdefault("timeout", 900)
+    kw.setdefault("mem_gb", 2)
     return Job(name="dimension/" + fn, props=["C10"], src="dimension.c", entry=entry, enforce=fn, functions=[fn],
                replay="dimension.c", **kw)
 
